@@ -2,28 +2,118 @@
    Only statements, closed by [exact lemma], with Print Assumptions beneath. *)
 From Coq Require Import String List NArith ZArith Bool Lia ZifyN ZifyNat ZifyBool.
 From J5V.lib Require Import Outcome.
-From J5V.model Require Import ProtoPrintLit ProtoPrint.
-From J5V.gen Require PrintGen.
-From J5V.proofs Require Import ProtoPrintLitProofs ProtoPrintProofs ProtoPrintTokenProofs.
+From J5V.model Require Import ProtoPrintLit ProtoPrint ProtoPrintFile ProtoParseFile ProtoPrintFileWf.
+From J5V.gen Require PrintGen PrintFileGen.
+From J5V.proofs Require Import ProtoPrintLitProofs ProtoPrintProofs ProtoPrintTokenProofs
+  ProtoPrintFileSyntaxProofs ProtoPrintFileSortProofs ProtoPrintFileSemProofs ProtoPrintFileFullProofs.
+From J5V.proofs Require ProtoPrintFileExample ProtoPrintFileGenProofs.
+From J5V.proofs Require Import ProtoPrintFileWfProofs.
 Import ListNotations.
 Local Open Scope N_scope.
 
 (* ---- the property at full strength ------------------------------------------------------------
    C05 quantifies over whole descriptors D: parse (print D) ~ D and print (parse (print D)) = print D.
-   The model covers the layers on which that depends and that the printer decides itself:
-   (1) every literal the printer writes is read back as the value it was written from,
-   (2) every type reference the printer shortens resolves, from the scope it is printed in, to the
-       type it was written for.
-   (1) is proved for all inputs. (2) is proved for ALL symbol tables and all nestings for the printer
-   as it is now (fix bb3e43d: captured names are printed with a leading dot); wf_target only says that
-   the referenced type and its enclosing messages are in the table and its package is visible. For the
-   printer before that fix it holds under explicit no-capture hypotheses and is refuted without them
-   (kept below as the ..._previous_... theorems). The layers above (layout of
-   elements, comments, whitespace, the option tree as a whole) are exercised by the round-trip
-   oracle on the real printer and parser, they are not modelled: character layer partial. *)
+   The model has four layers:
+   (0) file layer (model/ProtoPrintFile.v, model/ProtoParseFile.v): descriptor -> order of the elements of
+       every body (source line, else type / index), order of options, Simplify, json_name, grouping of
+       extension declarations -> syntactic file -> tokens of the protocompile lexer (comments as pseudo
+       tokens in front of the declaration they are attached to); a recursive-descent parser for the emitted
+       token subset; building the descriptor back (type names resolved from their scope, sub paths of option
+       names folded back, positions as source lines). C05_token_roundtrip below: for every well-formed D
+       (messages nested to any depth, any option trees) the parser reads the printed tokens back as a
+       descriptor D' equivalent to D, and printing D' gives the same tokens.
+   (1) literal layer: every literal the printer writes is read back as the value it was written from,
+   (2) scope layer: every type reference the printer shortens resolves, from the scope it is printed in, to
+       the type it was written for (used inside (0) for field and rpc types),
+   (3) option values at token level (used inside (0)).
+   What is NOT modelled, and stays with the correspondence (real text tokenised by the real lexer = model
+   tokens) and the round-trip oracle: the characters between the tokens (indentation, blank lines, line
+   breaks of inline / block option forms, "//" comment delimiters) and trailing comments; the resolution
+   of extension names in option names and of extendees; strconv.Quote of json_name beyond plain text;
+   floats in option values. C05_full_statement is the property over the text; C05_full_partial derives it
+   from C05_token_roundtrip with the text-level clause "same text" weakened to "same tokens", under the
+   hypothesis that scanning the rendered text gives the model's tokens (what the tie checks on every run). *)
 Definition C05_scope_full_statement : Prop :=
   forall st pkg ctx ref_pkg ref, ref <> [] -> wf_target st pkg ref_pkg ref ->
     resolve_printed st pkg ctx (context_ref_name_safe st pkg ctx ref_pkg ref) = Some (ref_pkg ++ ref).
+
+
+(* ---- (0) file layer ------------------------------------------------------------------------------ *)
+(* token level: what the parser reads back from the printed tokens is equivalent to D, and printing it
+   again (with the symbol table of the re-read file) gives the same tokens *)
+Definition C05_token_statement : Prop :=
+  forall (imp : xsymtab) (D : dfile), wf_dfile imp D ->
+    let toks := print_file_tokens (to_symtab (dfile_symtab imp D)) D in
+    exists D', parse_file_tokens imp toks = Some D'
+      /\ desc_equiv D D'
+      /\ wf_dfile imp D'
+      /\ print_file_tokens (to_symtab (dfile_symtab imp D')) D' = toks.
+
+Theorem C05_token_roundtrip : C05_token_statement.
+Proof. exact token_roundtrip. Qed.
+Print Assumptions C05_token_roundtrip.
+
+(* the property over the text. render = PrintFile (tokens + the characters between them, decided from
+   the source positions), scan = protocompile's lexer with its attribution of comments. *)
+Definition C05_full_statement (render : xsymtab -> dfile -> list N) (scan : list N -> option (list token)) : Prop :=
+  forall (imp : xsymtab) (D : dfile), wf_dfile imp D ->
+    exists D', match scan (render imp D) with Some ts => parse_file_tokens imp ts | None => None end = Some D'
+      /\ desc_equiv D D'
+      /\ render imp D' = render imp D.
+
+(* ... proved up to the characters between tokens: if scanning the rendered text of a well-formed
+   descriptor yields the model's tokens, then the text re-parses to an equivalent descriptor whose
+   rendering scans to the same tokens *)
+Theorem C05_full_partial : forall (render : xsymtab -> dfile -> list N) (scan : list N -> option (list token)),
+  (forall imp D, wf_dfile imp D ->
+     scan (render imp D) = Some (print_file_tokens (to_symtab (dfile_symtab imp D)) D)) ->
+  forall imp D, wf_dfile imp D ->
+    exists D', match scan (render imp D) with Some ts => parse_file_tokens imp ts | None => None end = Some D'
+      /\ desc_equiv D D'
+      /\ scan (render imp D') = scan (render imp D).
+Proof. exact text_roundtrip_partial. Qed.
+Print Assumptions C05_full_partial.
+
+(* the hypotheses as a computable test: the file correspondence evaluates it on every real descriptor of a
+   run (the original and the re-parsed one), so each of them is inside C05_token_roundtrip *)
+Theorem C05_wf_test_sound : forall imp D, wf_dfile_b imp D = true -> wf_dfile imp D.
+Proof. exact wf_dfile_b_sound. Qed.
+Print Assumptions C05_wf_test_sound.
+
+(* the pieces, with the re-read descriptor named *)
+Theorem C05_syntax_roundtrip : forall s, wf_file s -> parse_file (emit_file s) = Some s.
+Proof. exact parse_file_emit. Qed.
+Print Assumptions C05_syntax_roundtrip.
+
+Theorem C05_file_canonical : forall imp D, wf_dfile imp D ->
+  parse_file_tokens imp (print_file_tokens (to_symtab (dfile_symtab imp D)) D) = Some (canon_file D).
+Proof. exact file_roundtrip. Qed.
+Print Assumptions C05_file_canonical.
+
+Theorem C05_file_equiv : forall D, desc_equiv D (canon_file D).
+Proof. exact canon_file_equiv. Qed.
+Print Assumptions C05_file_equiv.
+
+Theorem C05_file_idempotent : forall imp D,
+  print_file_tokens (to_symtab (dfile_symtab imp (canon_file D))) (canon_file D)
+  = print_file_tokens (to_symtab (dfile_symtab imp D)) D.
+Proof. exact print_canon_file. Qed.
+Print Assumptions C05_file_idempotent.
+
+(* element order: the sort of a body is a permutation, leaves print order alone, and sorting twice is
+   sorting once (sourceElements.Less is asymmetric) *)
+Theorem C05_order_laws : forall (l : list (key3 * selem)),
+  Permutation.Permutation (isort (fun a b => key_less (fst a) (fst b)) l) l
+  /\ isort (fun a b => key_less (fst a) (fst b)) (isort (fun a b => key_less (fst a) (fst b)) l)
+     = isort (fun a b => key_less (fst a) (fst b)) l.
+Proof. exact order_laws. Qed.
+Print Assumptions C05_order_laws.
+
+(* Simplify is undone by folding the sub path back *)
+Theorem C05_simplify_inverse : forall max v,
+  unsimplify (fst (simplify max [] v)) (snd (simplify max [] v)) = v.
+Proof. exact unsimplify_simplify. Qed.
+Print Assumptions C05_simplify_inverse.
 
 (* ---- (1) literal layer: inverse pairs, for all byte strings / integers ---------------------- *)
 Theorem C05_string_literal_roundtrip : forall s,
@@ -153,6 +243,42 @@ Proof.
 Qed.
 Print Assumptions C05_tables_agree.
 
+
+(* the file layer: typeOrder per element kind (load-bearing: about the model function ekey), the Simplify
+   depth and exception, the label words, and the Go text of Less / optionsByLocation.Less / optionsFor /
+   Simplify which key_less / opt_less / lay_fopts / simplify transcribe *)
+Theorem C05_file_tables_agree :
+  ((forall f, ProtoPrintFileGenProofs.type_order (ekey (DField f)) = ProtoPrintFileGenProofs.order_of "FieldDescriptor")
+   /\ (forall k c n o fs, ProtoPrintFileGenProofs.type_order (ekey (DOneof k c n o fs)) = ProtoPrintFileGenProofs.order_of "OneofDescriptor")
+   /\ (forall k c n o b, ProtoPrintFileGenProofs.type_order (ekey (DMsg k c n o b)) = ProtoPrintFileGenProofs.order_of "MessageDescriptor")
+   /\ (forall k c n o vs, ProtoPrintFileGenProofs.type_order (ekey (DEnum k c n o vs)) = ProtoPrintFileGenProofs.order_of "EnumDescriptor")
+   /\ (forall k c n o ms, ProtoPrintFileGenProofs.type_order (ekey (DService k c n o ms)) = ProtoPrintFileGenProofs.order_of "ServiceDescriptor")
+   /\ (forall k, ProtoPrintFileGenProofs.type_order (key0 k) = ProtoPrintFileGenProofs.order_of "EnumValueDescriptor")
+   /\ (forall k, ProtoPrintFileGenProofs.type_order (key0 k) = ProtoPrintFileGenProofs.order_of "MethodDescriptor"))
+  /\ (N.of_nat max_depth = PrintFileGen.simplify_default_depth
+      /\ map ProtoPrintFileGenProofs.bytes_of PrintFileGen.never_simplified = [join_dot http_name]).
+Proof. exact (conj ProtoPrintFileGenProofs.type_orders_agree ProtoPrintFileGenProofs.simplify_constants_agree). Qed.
+Print Assumptions C05_file_tables_agree.
+
+Theorem C05_file_sources_agree :
+  PrintFileGen.message_add_order = ["field"; "oneof"; "nested"; "enums"]%string
+  /\ PrintFileGen.file_add_order = ["messages"; "services"; "enums"]%string
+  /\ PrintFileGen.file_option_kinds = ["BoolKind"; "StringKind"]%string.
+Proof.
+  exact (conj (proj1 (proj2 (proj2 ProtoPrintFileGenProofs.printer_words_agree)))
+              (conj (proj2 (proj2 (proj2 ProtoPrintFileGenProofs.printer_words_agree)))
+                    (proj1 (proj2 ProtoPrintFileGenProofs.printer_words_agree)))).
+Qed.
+Print Assumptions C05_file_sources_agree.
+
+Theorem C05_decision_sources_agree :
+  PrintFileGen.less_source = ProtoPrintFileGenProofs.transcribed_less
+  /\ PrintFileGen.option_less_source = ProtoPrintFileGenProofs.transcribed_option_less
+  /\ PrintFileGen.options_for_source = ProtoPrintFileGenProofs.transcribed_options_for
+  /\ PrintFileGen.simplify_source = ProtoPrintFileGenProofs.transcribed_simplify.
+Proof. exact ProtoPrintFileGenProofs.decision_sources_agree. Qed.
+Print Assumptions C05_decision_sources_agree.
+
 (* ---- non-vacuity -------------------------------------------------------------------------------- *)
 Example C05_example_literal :
   let s := [0; 9; 34; 39; 92; 127; 128; 195; 169; 240; 159; 152; 128; 255] in
@@ -189,3 +315,15 @@ Proof.
   - split; [|vm_compute; reflexivity].
     intros k Hk. vm_compute in Hk. destruct k as [|[|[|k]]]; try lia. vm_compute. reflexivity.
 Qed.
+
+(* a descriptor with nested messages, a oneof, a map, references in and out of nested scopes, options that
+   Simplify moves to a sub path, json_name, a service with a google.api.http option and a negative enum value
+   (proofs/ProtoPrintFileExample.v) satisfies the hypotheses of C05_token_roundtrip *)
+Example C05_example_file :
+  wf_dfile ProtoPrintFileExample.ex_imp ProtoPrintFileExample.ex_file
+  /\ length ProtoPrintFileExample.ex_tokens = 173%nat
+  /\ parse_file_tokens ProtoPrintFileExample.ex_imp ProtoPrintFileExample.ex_tokens
+     = Some (canon_file ProtoPrintFileExample.ex_file)
+  /\ print_file_tokens (to_symtab (dfile_symtab ProtoPrintFileExample.ex_imp (canon_file ProtoPrintFileExample.ex_file)))
+       (canon_file ProtoPrintFileExample.ex_file) = ProtoPrintFileExample.ex_tokens.
+Proof. exact ProtoPrintFileExample.ex_file_ok. Qed.
